@@ -83,17 +83,21 @@ CLAIMED = {
               'derived from worker timing, queue lengths or progress counters reaches a cut decision or an emitted byte; helper '
               'predicates inlined), FRESH-CODEC, SEQ-ORDER, PENDING-PAIR, LOOKAHEAD-TWIN.',
               'independence from the write partition inside the LZ window (numeric relation between positions).'),
-    'C14': _c('static: symbolic sign analysis of the normalisation kernels',
-              'NORM-NONNEG: scalar, AVX2 and SSE4.1 position-normalisation kernels all store max(p,o)-o (>= 0, 0 when p <= o).',
-              'equivalence of extend_match twins, asm vs portable decode_direct_bits, std/no_std error kinds (semantic '
-              'equivalence of numeric code needs execution or a solver).'),
+    'C14': _c('static: symbolic sign analysis of the normalisation kernels; slice-shape twin rule; control-dependence rule on the assembly dispatch',
+              'NORM-NONNEG: scalar, AVX2 and SSE4.1 position-normalisation kernels all store max(p,o)-o (>= 0, 0 when p <= o). '
+              'TWIN-SLICES: in every configuration the match-extension helper compares two slices of one common length whose '
+              'logical part is limit - current_len. ASM-DISPATCH: the clamping assembly path of decode_direct_bits is only '
+              'entered when the bytes it can consume are left, so it never reaches the point where it differs from the portable loop.',
+              'instruction-level equivalence of the assembly and the word-at-a-time comparators with their portable twins, '
+              'std/no_std error kinds (semantic equivalence of numeric code needs execution or a solver).'),
     'C15': _c('static: who-may-be-unsafe confinement + per-site bounds obligations on provenance',
               'UNSAFE-CONFINE (unsafe only in four modules; zero in no_std without optimization), UNSAFE-GUARD (11 sites), '
               'GUARD-FIELD-WRITERS, ASM-CLAMP.',
               'the non-local precondition of extend_match (read_pos + current_len >= distance) which rests on match-finder/window '
               'invariants.'),
     'C16': _c('static: who-reads-how classification of every source access in the single-stream decoders',
-              'EXACT-READ (only read_exact of fixed/sliced lengths, 1-byte reads or pass-through) and MULTISTREAM-GUARD.',
+              'EXACT-READ (only read_exact of fixed/sliced lengths, 1-byte reads or pass-through), MULTISTREAM-GUARD, END-NO-PULL '
+              '(typestate: after the end flag is set no call that can pull from the source is reachable in that call).',
               'whether the range decoder\'s lazy normalisation pulls exactly as many bytes as the encoder flushed.'),
     'C17': _c('static: unit inference {bytes, KiB} + dominance + interval analysis',
               'KIB-UNITS over the estimator call tree, LIMIT-BEFORE-ALLOC (limit test dominates every allocating call and is computed '
